@@ -11,7 +11,8 @@
         `numFormatPattern.search(specification)` with `([1IiAa])` = `findFmt` (first format character);
         prefix = text before it, suffix = text after it, displayLevels = i+1 | 1;
         otherwise a bullet level with `bullet[0]` (IndexError for an empty specification).
-    * `ListStyle(name=styleName)`: style:name goes through cnv_NCName/make_NCName (`makeNCName`).
+    * `ListStyle(name=styleName)` = `StyleElement`: style:name goes through cnv_NCName/make_NCName (`makeNCName`),
+      style:display-name is set to the name as given.
   `styleFromString` = `specifiers.split(delim)` (non-empty delimiter; `split`) then `styleFromList`.
 
   The two character classes are regenerated from the source on every run (Generated/EasyListRe.lean).
@@ -64,7 +65,8 @@ structure Level where
 deriving DecidableEq, Repr
 
 structure ListStyle where
-  name : Str
+  name : Str          -- style:name: the given name through make_NCName
+  displayName : Str   -- style:display-name: `StyleElement` stores the given name as it is
   levels : List Level
 deriving Repr
 
@@ -111,7 +113,7 @@ def styleFromList (F : FloatOracle) (name : Str) (specs : List Str) (spacing : S
   | some (base, mul) =>
     match levelsFrom showAll (unitsOf m) base mul 0 specs with
     | .error e => .error e
-    | .ok ls => .ok { name := makeNCName name, levels := ls }
+    | .ok ls => .ok { name := makeNCName name, displayName := name, levels := ls }
 
 /-- `s.split(d)` for a non-empty `d`: `cur` is the piece being collected -/
 def splitAux (d : Str) : Nat → Str → Str → List Str
